@@ -4,6 +4,7 @@ import (
 	"fmt"
 	"go/token"
 	"go/types"
+	"sort"
 	"strings"
 
 	"golang.org/x/tools/go/ssa"
@@ -417,4 +418,110 @@ func runHpackAllocs(c *Ctx, rule string) {
 		})
 	}
 	c.Pass(rule, pkg+":decoder-reservations", 0, fmt.Sprintf("%d explicit reservations in Decoder methods, each sized by received data", n))
+}
+
+// c07H2Dispatch (B2d, HTTP/2): the frames extracted from a read do not depend on what an earlier frame meant.
+// serverStreamConnection.Dispatch and clientStreamConnection.Dispatch decode frame after frame out of the read buffer.
+// What one read delivers is arbitrary, so the loop may stop only for a reason that is about the *bytes*: the decoder
+// needs more of them (ErrAGAIN) or could not parse them (a decode error). Clause: every edge that leaves the decode
+// loop is taken on a condition over the error result of this iteration's Decode call. A loop that also stops on the
+// outcome of handling a frame (a stream-level error such as a valid RST_STREAM) leaves the complete frames that follow
+// it in the same read undecoded until more bytes arrive - the same byte stream cut differently is then extracted
+// differently.
+func c07H2Dispatch(c *Ctx, rule string) {
+	pkg := "pkg/stream/http2"
+	n := 0
+	for _, typ := range []string{"serverStreamConnection", "clientStreamConnection"} {
+		fn := c.M(pkg, typ, "Dispatch")
+		if fn == nil {
+			c.Unresolved(rule, typ+".Dispatch")
+			continue
+		}
+		fk := funcKey(fn)
+		dec := callsIn(fn, false, func(cc *ssa.CallCommon) bool { return cc.IsInvoke() && cc.Method.Name() == "Decode" })
+		if len(dec) != 1 {
+			c.Unresolved(rule, fmt.Sprintf("the single Decode call of %s.Dispatch (found %d)", typ, len(dec)))
+			continue
+		}
+		d := dec[0].Instr
+		var body map[*ssa.BasicBlock]bool
+		for _, b := range naturalLoops(fn) {
+			if b[d.Block()] && (body == nil || len(b) < len(body)) {
+				body = b
+			}
+		}
+		c.Check(rule, fk+":decode-in-loop", d.Pos(), body != nil, "Decode is called in a loop (several frames per read)", "Decode is not in a loop: frames after the first in one read would be left undecoded")
+		if body == nil {
+			continue
+		}
+		isDecodeErr := func(v ssa.Value) bool {
+			ex, ok := v.(*ssa.Extract)
+			return ok && ex.Tuple == d.(ssa.Value) && ex.Index == 1
+		}
+		// a guard "about the bytes": err == <sentinel> taken, or err != nil taken, err being Decode's own result
+		byteGuard := func(g Guard) bool {
+			bo, ok := g.Cond.(*ssa.BinOp)
+			if !ok {
+				return false
+			}
+			var other ssa.Value
+			switch {
+			case isDecodeErr(bo.X):
+				other = bo.Y
+			case isDecodeErr(bo.Y):
+				other = bo.X
+			default:
+				return false
+			}
+			if isNilConst(other) {
+				return (bo.Op == token.NEQ && g.True) || (bo.Op == token.EQL && !g.True)
+			}
+			return bo.Op == token.EQL && g.True
+		}
+		ord := 0
+		var blocks []*ssa.BasicBlock
+		for b := range body {
+			blocks = append(blocks, b)
+		}
+		sort.Slice(blocks, func(i, j int) bool { return blocks[i].Index < blocks[j].Index })
+		for _, b := range blocks {
+			for si, s := range b.Succs {
+				if body[s] {
+					continue
+				}
+				ord++
+				n++
+				ok := false
+				if ifi, isIf := b.Instrs[len(b.Instrs)-1].(*ssa.If); isIf {
+					for _, g := range normGuard(Guard{Cond: ifi.Cond, True: si == 0, If: ifi}) {
+						ok = ok || byteGuard(g)
+					}
+				}
+				for _, g := range guardsAt(b) {
+					if body[g.If.Block()] {
+						ok = ok || byteGuard(g)
+					}
+				}
+				c.Check(rule, fmt.Sprintf("%s:loop-exit-about-the-bytes#%d", fk, ord), nearestPos(b.Instrs[len(b.Instrs)-1]), ok, "the loop is left on a condition over Decode's own error result", "the decode loop can stop for a reason other than the decoder's verdict on the bytes (need more data / cannot parse): complete frames that follow in the same read stay in the buffer until more bytes arrive, so what is extracted depends on how the byte stream was cut into reads")
+			}
+		}
+		// a return from inside the loop is an exit as well
+		for _, in := range instrsWhere(fn, isReturn) {
+			if !body[in.Block()] {
+				continue
+			}
+			ord++
+			n++
+			ok := false
+			for _, g := range guardsAt(in.Block()) {
+				if body[g.If.Block()] {
+					ok = ok || byteGuard(g)
+				}
+			}
+			c.Check(rule, fmt.Sprintf("%s:loop-exit-about-the-bytes#%d", fk, ord), nearestPos(in), ok, "the loop is left on a condition over Decode's own error result", "the decode loop returns for a reason other than the decoder's verdict on the bytes: complete frames that follow in the same read stay undecoded")
+		}
+	}
+	if n < 4 {
+		c.Unresolved(rule, fmt.Sprintf("exits of the HTTP/2 Dispatch loops (found %d)", n))
+	}
 }
